@@ -110,6 +110,7 @@ func vRunBufferCase(rc *runCtx, stream []byte, cuts []int, ops []vReadOp, pauses
 	b := newTrzszBuffer()
 	delivered := 0
 	nres := 0
+	vLastRestValid = false
 	consumerDone := false
 	w.Go("consumer", nil, func() {
 		for _, op := range ops {
@@ -166,11 +167,100 @@ func vRunBufferCase(rc *runCtx, stream []byte, cuts []int, ops []vReadOp, pauses
 		// the consumer may legitimately still wait for bytes that never come: stop the buffer
 		b.stopBuffer()
 		w.Run(func() bool { return consumerDone })
+	} else if len(got) == len(ops) && (len(got) == 0 || got[len(got)-1].err == "") {
+		// every read was answered: what is left in the buffer is handed over (as a relay does after its handshake
+		// line) and must be exactly the unread rest of the stream
+		var rest []byte
+		for i := 0; i < len(stream)+2; i++ {
+			p := b.popBuffer()
+			if p == nil {
+				break
+			}
+			rest = append(rest, p...)
+		}
+		vLastRest, vLastRestValid = rest, true
 	}
 	return got, late
 }
 
+// what popBuffer handed over after the last case in which every read was answered
+var vLastRest []byte
+var vLastRestValid bool
+
+// vC03Backlog: a reader that stands still (paused, or simply slower than the link) while the transport keeps
+// delivering tiny reads: more chunks than the buffer's queue holds pile up before the first read is issued.
+// Nothing may be dropped: the input side waits instead.
+func vC03Backlog(rc *runCtx) {
+	tp := rc.tape
+	w := rc.w
+	nlines := 220 + tp.Draw("c03.bl.lines", 120)
+	var stream []byte
+	var want [][]byte
+	for i := 0; i < nlines; i++ {
+		line := []byte(fmt.Sprintf("#DATA:%04d:%s", i, vProtoPayload(tp, 30+tp.Draw("c03.bl.len", 30))))
+		want = append(want, line)
+		stream = append(append(stream, line...), '\n')
+	}
+	b := newTrzszBuffer()
+	producerDone, consumerDone := false, false
+	var got [][]byte
+	var rerr string
+	w.Go("producer", nil, func() {
+		for i := 0; i < len(stream); {
+			n := 1
+			if tp.Bool("c03.bl.two", 100) {
+				n = 2
+			}
+			if i+n > len(stream) {
+				n = len(stream) - i
+			}
+			b.addBuffer(append([]byte(nil), stream[i:i+n]...))
+			i += n
+		}
+		producerDone = true
+	})
+	w.Go("consumer", nil, func() {
+		// the reader only starts once the input side has stopped making progress (its queue is full) or is done
+		verifsim.Sleep(time.Duration(1+tp.Draw("c03.bl.wait", 20)) * time.Millisecond)
+		for range want {
+			line, err := b.readLine(false, nil)
+			if err != nil {
+				rerr = err.Error()
+				break
+			}
+			got = append(got, append([]byte(nil), line...))
+		}
+		consumerDone = true
+	})
+	w.Run(func() bool { return producerDone && consumerDone })
+	rc.res.ClassKey = "backlog"
+	rc.res.Scenario["chunks"] = len(stream)
+	if !consumerDone || !producerDone {
+		b.stopBuffer()
+		w.Run(func() bool { return consumerDone })
+		rc.violate("reassembly", "C03:backlog-stuck", "with %d one-byte reads queued before the first line read, the reader (done=%v) or the input side (done=%v) never finished; %d of %d lines read", len(stream), consumerDone, producerDone, len(got), len(want))
+		return
+	}
+	for i := range want {
+		if i >= len(got) || !bytes.Equal(got[i], want[i]) {
+			have := "nothing"
+			if i < len(got) {
+				have = fmt.Sprintf("%q", vClipB(got[i], 60))
+			}
+			rc.violate("reassembly", "C03:backlog-lost", "%d tiny reads were delivered before the reader started: line %d came back as %s (err %q), expected %q", len(stream), i, have, rerr, vClipB(want[i], 60))
+			return
+		}
+	}
+	rc.w.Probe("backlog-of-tiny-reads")
+	rc.res.Probes = rc.w.Probes
+	rc.res.Nontrivial = true
+}
+
 func vScenarioC03(rc *runCtx) {
+	if rc.tape.Bool("c03.backlog", 40) {
+		vC03Backlog(rc)
+		return
+	}
 	tp := rc.tape
 	exhaustive := tp.Bool("c03.exhaustive", 350)
 	windows := tp.Bool("c03.windows", 150)
@@ -270,6 +360,13 @@ func vScenarioC03(rc *runCtx) {
 			}
 			if got[i].err != "" || !bytes.Equal(got[i].data, want[i].data) {
 				rc.violate("reassembly", "C03:wrong-result:"+ops[i].kind, "%s: read #%d (%s): expected %q, got %q err=%q (stream %s, ops %s)", seg, i, ops[i].kind, vClipB(want[i].data, 60), vClipB(got[i].data, 60), got[i].err, vQuote(stream, 80), strings.Join(opNames, " "))
+				return false
+			}
+		}
+		if vLastRestValid && !windows && len(want) == len(ops) && len(got) == len(ops) {
+			_, consumed := vRefParse(stream, ops, len(stream))
+			if consumed >= 0 && !bytes.Equal(vLastRest, stream[consumed:]) {
+				rc.violate("reassembly", "C03:rest-handed-over", "%s: after all %d reads were answered the buffer handed over %q, the unread rest of the stream is %q (stream %s, ops %s)", seg, len(ops), vClipB(vLastRest, 40), vClipB(stream[consumed:], 40), vQuote(stream, 80), strings.Join(opNames, " "))
 				return false
 			}
 		}
